@@ -19,6 +19,20 @@ handed over by keyword / by position / left out (each alone, both together), and
 the documented meaning of the call (an option left out = its documented default); inspect.signature() is compared with the table
 (C09.defaults.signature: a default or an order that differs from the documented one IS the defect).
 
+LONG SPECIMENS (size=long): the statement quantifies over all polylines, surfaces and volumes, so also over those in which a
+shortest path has far more edges than the interpreter allows nested calls (default recursion limit 1000). Nine shapes with 1600
+edges from end to end (chains in three numberings, a cycle of 3200, 2 x 1600 strips, capped tubes whose border is 1599 edges away
+from the cap, a strip of tetrahedra) are asked between their ends, from the middle, for vertex sets whose nearest member is the far
+end / near / the start, and for the border; the oracle is a single-source label-correcting pass per start (mc/c09_extra.py). The
+40-edge member of every shape is run in the same task, so a failure that needs the length gets the class size=long.
+
+EDIT HISTORIES (C09.edited.*): the mesh of a query is the mesh as its containers are NOW. Every member of the small families is
+put through every edit of a menu between two rounds of queries on ONE mesh object: an element appended through the containers, an
+element re-assigned (edge of a polyline, flip of an edge of a surface), every vertex moved - each followed by the documented resets
+connectivity.clear() / clear_boundary_data() - and the library's own editors (split_edge, SurfaceSubdivision, VolumeSubdivision).
+The round before the edit (nothing / shortest_path / vertex set / border / all of them, from every start) fills whatever the
+library keeps; the round after it is judged against the containers read back from the edited mesh.
+
 Fingerprints are generalised inside a task: the input_class of a failure group (subcheck, callee, kind) is
 the conjunction of the query features (weights, number of targets, form, start inside, export, ...) that are
 constant over the failing queries but not over the executed ones, minus the features implied by the others.
@@ -27,6 +41,7 @@ from __future__ import annotations
 import itertools, math, operator, signal
 from mc.core import Report, Outcome, WatchdogTimeout
 from mc import families as F
+from mc import c09_extra as X
 
 ID = "C09"
 TECHNIQUE = "bounded-exhaustive enumeration of meshes x starts x target forms x weight modes vs exact Floyd-Warshall"
@@ -43,7 +58,17 @@ RULE = ("one case = (mesh family member, coordinate alphabet, weight assignment,
         "start, targets) asked in every form of CALL_FORMS (all by keyword; options by keyword; weights by position + export by "
         "keyword; weights left out; export_path_mesh left out with weights by position / by keyword; both left out with the "
         "required arguments by position / by keyword) x the (weights, export) values listed there, each judged by the oracle under "
-        "the documented meaning (table DOC_SIGNATURES); non-trivial = not the query from a vertex to itself")
+        "the documented meaning (table DOC_SIGNATURES); non-trivial = not the query from a vertex to itself; besides, LONG SPECIMENS: "
+        "one case = (shape of LONG_SHAPES with N edges from end to end, weight mode, query of _long_queries: both ends, the middle, a "
+        "vertex 5 steps from one end, the far end as int / list / numpy scalar, vertex sets whose nearest member is the far end "
+        "(list, set, tuple, numpy array), near, or the start itself, every k-th vertex at once, the border), each shape also with N = 40 "
+        "(control); distinct = different (shape, N, mode, query); besides, EDIT HISTORIES: one case = (family member, edit of the menu "
+        "_edit_menu: every element in turn left out and appended through the containers; every edge re-assigned to every non-edge / every "
+        "manifold-preserving flip; all vertices moved; split_edge / split_face_as_fan / split_cell_as_fan of every element, triangulate; "
+        "queries before the edit: none / shortest_path / vertex set / border / all, from every start; weight mode) = one mesh object "
+        "queried, edited, reset as documented and queried again from every start (whole component, every single target, every vertex "
+        "set of size <= 2, border), judged against the containers of the edited mesh; non-trivial = the edit changes the edge set or the "
+        "lengths (flags); distinct = different (mesh, edit, queries before, mode)")
 ASSUMPTIONS = [
     "only connected pairs are asked: shortest_path targets lie in the start's component; vertex sets contain at "
     "least one member reachable from the start (sets with some unreachable members are asked and tagged reach=partial)",
@@ -66,6 +91,16 @@ ASSUMPTIONS = [
     "failure is reported as C09.defaults.* only if the same query with everything passed by position passes that clause",
     "a clause failing on a later call of a history is reported as C09.history.* only if the same query with fresh argument "
     "objects passes that clause (control run on the spot); otherwise it counts as the ordinary failure",
+    "long specimens: N = 1600 edges from end to end (thorough: also 2500), i.e. beyond the default recursion limit of 1000 but not "
+    "beyond any other size threshold; distances by a single-source label-correcting pass (exact integers for unit and custom "
+    "weights, 1e-9 relative for lengths); one call may use 60 s of CPU",
+    "edit histories: an edit through the containers writes every container construction would write (faces + corners + new edges; "
+    "cells + corners + new faces + their corners + new edges + cell_faces, in the conventions of RawMeshData.prepare) and is followed "
+    "by mesh.connectivity.clear() and, on surfaces, mesh.clear_boundary_data(); after an append what remains before it must be an "
+    "oriented manifold (other choices are filtered and counted); the oracle reads vertices and elements back from the containers of "
+    "the edited mesh (never its connectivity); an edit whose result differs from what was written, or that raises, is not judged here "
+    "(counted, and the count must be zero); a clause failing after an edit is reported as C09.edited.* only if the same query on a "
+    "mesh built afresh from the same containers passes it",
 ]
 BOUNDS = {
     "quick": "every start vertex of: GRAPH(<=4) 75 labelled graphs [lattice: FULL plan = 10/8 single-target forms (point-to-point / vertex set; int, numpy int, list, set, tuple, frozenset, list with a duplicate, generator, list of numpy ints, numpy array), 7/6 multi-target "
@@ -82,7 +117,11 @@ BOUNDS = {
              "CALL FORMS (8 forms, 24 calls per query + 2 controls; queries per start: every single target as int / one-element list, whole "
              "component, component minus start as vertex set, border; weights one/length/dict/Attribute): GRAPH(<=4) 75 generic, every "
              "64th of GRAPH(5) (16), every 3rd of SURF(<=4) (22), 3 of TET(<=5), lifted grids 3x3 tri, 3x4 quad, 4x4 mixed; signature "
-             "table vs inspect.signature for the 3 entry points",
+             "table vs inspect.signature for the 3 entry points; LONG SPECIMENS: 9 shapes x N = 1600 (modes 'one' + one of length / "
+             "dict / Attribute in rotation over the shapes; 'every k-th vertex' k = 97) + N = 40 (5 modes, k = 7); EDIT HISTORIES: every "
+             "edit of the menu on GRAPH(<=4) 75, SURF(<=4) 66, 3 of TET(<=5), grids 3x3 tri / quad, 2x4 mixed, every 12th holey 3x3 grid "
+             "(1534 edits), each with ONE (queries before, weight mode) pair, the 20 (16 off surfaces) pairs dealt in rotation over the "
+             "edits of one kind",
     "thorough": "every start vertex of: GRAPH(<=4) x {lattice,generic} FULL; GRAPH(5) 1024 lattice MID (subsets <=3, 4 modes) + "
                 "generic LIGHT; SURF(<=4) 66 lattice FULL + generic MID; SURF(5) all 2632 tri+quad lattice LIGHT, 410 triangle "
                 "complexes lattice MID + generic LIGHT; 28 six-vertex triangle classes MID; TET(<=5) 27 x {generic,lattice} MID; grids "
@@ -91,7 +130,11 @@ BOUNDS = {
                 "pair as vertex set); HISTORIES as in quick with subsets <=3, all three schedules in all 5 modes on GRAPH(<=4) x "
                 "{lattice,generic} and SURF(<=4) 66; subsets <=2, 4 modes on SURF(5) 410 triangle complexes (interleaved + border-only), TET(<=5) 27, grids 2..5 x "
                 "2..5 x 4 modes, 92 holey 3x3 grids; CALL FORMS as in quick on GRAPH(<=4) x {generic,lattice}, every 8th of GRAPH(5) (128), "
-                "SURF(<=4) 66 generic, every 8th five-vertex triangle complex (52), TET(<=5) 27, lifted grids 2..4 x 2..4 x 4 modes",
+                "SURF(<=4) 66 generic, every 8th five-vertex triangle complex (52), TET(<=5) 27, lifted grids 2..4 x 2..4 x 4 modes; LONG "
+                "SPECIMENS: 9 shapes x N = 1600 in all 5 modes with every vertex at once + N = 2500 in 2 modes + N = 40 controls; EDIT "
+                "HISTORIES: every edit x all (queries before) x 4 weight modes on GRAPH(<=4) x {lattice,generic}, SURF(<=4) 66, TET(<=5) 27; "
+                "one pair per edit in rotation on the 410 five-vertex triangle complexes, grids 2..4 x 2..4 x 4 modes, 92 holey 3x3 grids "
+                "(47801 edit histories)",
 }
 
 CALL_CPU_LIMIT = 1.0      # seconds of CPU per single library call (ITIMER_VIRTUAL): a longer call is a hang
@@ -100,12 +143,19 @@ PINNED = {"graph1": 1, "graph2": 2, "graph3": 8, "graph4": 64, "graph5": 1024,
           "surf3": 2, "surf4": 64, "surf5": 2632, "surf5tri": 410, "surf6c": 28, "tet4": 1, "tet5": 26}
 
 # query features, in reporting order; DROP_ORDER = least informative first (see _explain)
-NAMES = ("weights", "weights_type", "ntargets", "targets_form", "start_in_targets", "export", "mesh", "reach", "call")
+NAMES = ("weights", "weights_type", "ntargets", "targets_form", "start_in_targets", "export", "mesh", "reach", "call", "size")
 # values that are the "nothing special" side of a two-valued feature are never part of a class
-DEFAULTS = {(4, "no"), (5, "no"), (7, "all")}
+DEFAULTS = {(4, "no"), (5, "no"), (7, "all"), (9, "small")}
 WTYPE = {"one": "str", "length": "str", "dict": "dict", "attr": "Attribute", "attr_dense": "ArrayAttribute"}
-DROP_ORDER = (7, 6, 8, 3, 1, 4, 5, 2, 0)
+DROP_ORDER = (7, 6, 8, 3, 1, 4, 5, 2, 0, 9)
 
+EDIT_PRIMES = ("none", "p2p", "set", "border", "all")
+EDIT_KINDS = ("append_element", "replace_element", "move_vertices", "subdivide")
+LONG_N = 1600               # edges along the specimen: a shortest path between its ends is deeper than the default recursion limit (1000)
+LONG_N_THOROUGH = 2500
+LONG_CONTROL_N = 40
+LONG_CPU_LIMIT = 60.0       # seconds of CPU per single call on a long specimen
+LONG_MIN_EDGES = 1500
 ATTR_FORMS = ((0.0, "all"), (1.0, "all"), (1.0, "nondefault"), (0.0, "nondefault"))
 PATTERNS = {"dict": (1, 0, 2, 5), "attr": (2, 5, 1, 0, 1), "attr_dense": (0, 0, 1)}
 
@@ -242,9 +292,59 @@ def _callform_tasks(quick):
     return out
 
 
+PLAN_EDIT_FULL = {"primes": list(EDIT_PRIMES), "modes": STD4, "rotate": False}
+PLAN_EDIT_ROT = {"primes": list(EDIT_PRIMES), "modes": STD4, "rotate": True}
+LONG_ROT = ("length", "dict", "attr")
+
+
+def _long_tasks(quick):
+    """LONG SPECIMENS: one task per shape (the long member and its short control, so that a failure that needs the length is told
+    from one that does not)."""
+    out = []
+    for i, shape in enumerate(X.LONG_SHAPES):
+        if quick:
+            out.append({"kind": "long", "shape": shape, "N": LONG_N, "modes": ["one", LONG_ROT[i % 3]], "every": 97})
+        else:
+            out.append({"kind": "long", "shape": shape, "N": LONG_N, "modes": ALL5, "every": 1})
+            out.append({"kind": "long", "shape": shape, "N": LONG_N_THOROUGH, "modes": ["one", LONG_ROT[(i + 1) % 3]], "every": 97})
+    return out
+
+
+def _edit_tasks(quick):
+    """EDIT HISTORIES: the meshes whose every edit of the menu is put between two rounds of queries (see sweep_edits)."""
+    out = []
+    ed = lambda **k: dict({"kind": "edit", "step": 1, "coords": "lattice", "plan": PLAN_EDIT_ROT if quick else PLAN_EDIT_FULL}, **k)
+    if quick:
+        for lo, hi in _chunks(75, 5):
+            out.append(ed(of="graph", nmax=4, lo=lo, hi=hi))
+        for lo in range(11):      # SURF(<=4), all 66, dealt over eleven tasks
+            out.append(ed(of="surf", family="surf<=4", lo=lo, hi=66, step=11))
+        out.append(ed(of="tet", lo=0, hi=27, step=9, coords="generic"))
+        for k, l, mode in [(3, 3, "tri"), (3, 3, "quad"), (2, 4, "mixed")]:
+            out.append(ed(of="grid", k=k, l=l, mode=mode))
+        out.append(ed(of="holey", mode="tri", lo=0, hi=92, step=12))
+        return out
+    for coords in ("lattice", "generic"):
+        for lo, hi in _chunks(75, 2):
+            out.append(ed(of="graph", nmax=4, lo=lo, hi=hi, coords=coords))
+    for lo, hi in _chunks(66, 2):
+        out.append(ed(of="surf", family="surf<=4", lo=lo, hi=hi))
+    for lo, hi in _chunks(410, 8):
+        out.append(ed(of="surf", family="surf5tri", lo=lo, hi=hi, plan=PLAN_EDIT_ROT))
+    for lo, hi in _chunks(27, 1):
+        out.append(ed(of="tet", lo=lo, hi=hi, coords="generic"))
+    for k in (2, 3, 4):
+        for l in (2, 3, 4):
+            for mode in ("tri", "tri2", "quad", "mixed"):
+                out.append(ed(of="grid", k=k, l=l, mode=mode, plan=PLAN_EDIT_ROT))
+    for lo, hi in _chunks(92, 4):
+        out.append(ed(of="holey", mode="tri", lo=lo, hi=hi, plan=PLAN_EDIT_ROT))
+    return out
+
+
 def tasks(tier):
     quick = tier == "quick"
-    out = [{"kind": "selftest"}] + _hist_tasks(quick) + _callform_tasks(quick)
+    out = [{"kind": "selftest"}] + _long_tasks(quick) + _hist_tasks(quick) + _callform_tasks(quick) + _edit_tasks(quick)
     # ---- GRAPH: all labelled graphs on <= 4 vertices (75), full plan, both coordinate alphabets
     for coords in ("lattice", "generic"):
         for lo, hi in _chunks(75, 4):
@@ -463,10 +563,12 @@ class Ctx:
         self.hangs = 0
         self.forms = FormCollector()
         self.seen = set()       # coverage facts collected per call, turned into flags at the end of the task
+        self.cpu_limit = CALL_CPU_LIMIT
+        self.edit_counter = {}
         signal.signal(signal.SIGVTALRM, _vt_handler)
 
     def gcall(self, fn, *a, **k):
-        signal.setitimer(signal.ITIMER_VIRTUAL, CALL_CPU_LIMIT)
+        signal.setitimer(signal.ITIMER_VIRTUAL, self.cpu_limit)
         try:
             try:
                 v = fn(*a, **k)
@@ -475,7 +577,7 @@ class Ctx:
             return Outcome(True, v)
         except WatchdogTimeout:
             self.hangs += 1
-            return Outcome(False, exc="HANG", msg=f"no answer within {CALL_CPU_LIMIT}s of CPU")
+            return Outcome(False, exc="HANG", msg=f"no answer within {self.cpu_limit}s of CPU")
         except Exception as e:  # noqa
             return Outcome(False, exc=type(e).__name__, msg=str(e)[:200])
 
@@ -485,13 +587,41 @@ class Aborted(Exception):
 
 
 # ------------------------------------------------------------------------------------------------ per-mesh data
+def _weights_object(ctx, mc, mode, wlist):
+    """The caller-supplied weights object of a custom mode, wlist[e] = weight of edge id e."""
+    if mode == "dict":
+        return {e: wlist[e] for e in reversed(range(len(wlist)))}   # inserted in decreasing edge order: insertion order must not matter
+    if mode == "attr":
+        # storage forms of a sparse attribute, in rotation over the tables of this mesh: default 0 or 1, every entry written
+        # (stored zeros, stored values equal to the default) or only the entries that differ from the default
+        dflt, which = ATTR_FORMS[mc.n_attr_tables % len(ATTR_FORMS)]
+        mc.n_attr_tables += 1
+        obj = ctx.Attribute(float) if dflt == 0.0 else ctx.Attribute(float, 1, dflt)
+        for e, w in enumerate(wlist):
+            if which == "all" or float(w) != dflt:
+                obj[e] = float(w)
+        ctx.rep.flag("attr_form:default=%g:%s" % (dflt, which))
+        return obj
+    obj = ctx.ArrayAttribute(float, len(wlist))
+    for e, w in enumerate(wlist):
+        obj[e] = float(w)
+    return obj
+
+
 class MeshCase:
     """One built mesh + its oracle data."""
 
-    def __init__(self, ctx, kind, pts, elems, tag):
+    size = "small"        # query feature "size" ("long" for the specimens of LongCase)
+
+    def __init__(self, ctx, kind, pts, elems, tag, mesh=None, story=None):
+        """mesh: a live mesh object to be judged as it is (EDIT HISTORIES: pts / elems are then what its containers hold);
+        story: how it came about (part of every counterexample)"""
         self.kind, self.pts, self.elems, self.tag = kind, [tuple(p) for p in pts], [tuple(e) for e in elems], tag
+        self.story = story
         self.n = n = len(pts)
-        if kind == "polyline":
+        if mesh is not None:
+            self.mesh = mesh
+        elif kind == "polyline":
             self.mesh = F.build_polyline(pts, elems)
         elif kind == "surface":
             self.mesh = F.build_surface(pts, elems)
@@ -517,7 +647,10 @@ class MeshCase:
         self.n_attr_tables = 0
 
     def describe(self):
-        return {"mesh_kind": self.kind, "points": self.pts, "elements": self.elems, "family": self.tag}
+        d = {"mesh_kind": self.kind, "points": self.pts, "elements": self.elems, "family": self.tag}
+        if self.story is not None:
+            d["history_of_the_mesh"] = self.story
+        return d
 
     # --- weight tables: mode -> (weights object for the library, W matrix, exact?, weights by edge id)
     def named_table(self, mode):
@@ -534,25 +667,61 @@ class MeshCase:
         """wlist[e] = weight of edge id e (ints)."""
         if self.edge_of_id is None:
             return None
-        if mode == "dict":
-            obj = {e: wlist[e] for e in reversed(range(len(wlist)))}   # inserted in decreasing edge order: insertion order must not matter
-        elif mode == "attr":
-            # storage forms of a sparse attribute, in rotation over the tables of this mesh: default 0 or 1, every entry written
-            # (stored zeros, stored values equal to the default) or only the entries that differ from the default
-            dflt, which = ATTR_FORMS[self.n_attr_tables % len(ATTR_FORMS)]
-            self.n_attr_tables += 1
-            obj = ctx.Attribute(float) if dflt == 0.0 else ctx.Attribute(float, 1, dflt)
-            for e, w in enumerate(wlist):
-                if which == "all" or float(w) != dflt:
-                    obj[e] = float(w)
-            ctx.rep.flag("attr_form:default=%g:%s" % (dflt, which))
-        else:
-            obj = ctx.ArrayAttribute(float, len(wlist))
-            for e, w in enumerate(wlist):
-                obj[e] = float(w)
+        obj = _weights_object(ctx, self, mode, wlist)
         wmap = {self.edge_of_id[e]: w for e, w in enumerate(wlist)}
         W = _matrix(self.n, self.E, lambda a, b: wmap[(a, b)])
         return (obj, _floyd(self.n, W), W, True, list(wlist), {})
+
+
+class LongCase(MeshCase):
+    """A LONG SPECIMEN (mc/c09_extra.py) or its short control: same interface as MeshCase, but the distances come from a
+    single-source label-correcting oracle run per start vertex (rows on demand) and the weights from adjacency rows."""
+
+    def __init__(self, ctx, spec, N, long):
+        kind = spec["kind"]
+        self.kind, self.pts, self.elems = kind, [tuple(p) for p in spec["pts"]], [tuple(e) for e in spec["elems"]]
+        self.tag = spec["shape"] + f":N={N}"
+        self.size = "long" if long else "small"
+        self.spec, self.story = spec, None
+        self.n = len(self.pts)
+        self.mesh = {"polyline": F.build_polyline, "surface": F.build_surface, "volume": F.build_volume}[kind](self.pts, self.elems)
+        self.E = _oracle_edges(kind, self.elems)
+        self.adj = set(self.E) | {(b, a) for a, b in self.E}
+        self.border = _oracle_border(self.elems) if kind == "surface" else set()
+        self.coord_id = {tuple(float(c) for c in (tuple(p) + (0,) * (3 - len(p)))): i for i, p in enumerate(self.pts)}
+        self.edge_of_id = None
+        try:
+            ids = [tuple(int(x) for x in e) for e in self.mesh.edges]
+            key = [((a, b) if a < b else (b, a)) for a, b in ids]
+            if len(set(key)) == len(key) and set(key) == self.E:
+                self.edge_of_id = key
+        except Exception:  # noqa
+            self.edge_of_id = None
+        self.tables = {}
+        self.n_attr_tables = 0
+
+    def describe(self):
+        return {"mesh_kind": self.kind, "family": "LONG SPECIMEN " + self.tag, "construction": self.spec["text"],
+                "n_vertices": self.n, "n_elements": len(self.elems)}
+
+    def _table(self, obj, weight_of, exact, wl):
+        nbr = X.neighbours(self.n, self.E, weight_of)
+        return (obj, X.LazyRows(self.n, nbr), X.WeightRows(self.n, nbr), exact, wl, {})
+
+    def named_table(self, mode):
+        if mode not in self.tables:
+            if mode == "one":
+                self.tables[mode] = self._table("one", lambda a, b: 1, True, None)
+            else:
+                self.tables[mode] = self._table("length", lambda a, b: math.sqrt(_sqdist(self.pts[a], self.pts[b])), False, None)
+        return self.tables[mode]
+
+    def custom_table(self, ctx, mode, wlist):
+        if self.edge_of_id is None:
+            return None
+        obj = _weights_object(ctx, self, mode, wlist)
+        wmap = {self.edge_of_id[e]: w for e, w in enumerate(wlist)}
+        return self._table(obj, lambda a, b: wmap[(a, b)], True, list(wlist))
 
 
 # ------------------------------------------------------------------------------------------------ answer checking
@@ -694,26 +863,30 @@ def _ctor(form, T):
             "nparr": f"numpy.array({T}, dtype=numpy.int64)"}[form]
 
 
-def _query(ctx, mc, callee, start, form, T, mode, table, export, reach, hist=None):
+def _query(ctx, mc, callee, start, form, T, mode, table, export, reach, hist=None, stage=None):
     """Run one real call and judge it. T = tuple of distinct target vertices (None for border).
     hist = None: the argument objects of the call are fresh (the weights object is the one of `table`). Otherwise hist is
     the state of a HISTORY of calls that all receive ONE targets object hist["tobj"] (built once from T) and the one weights
     object of `table`: every call is judged against T as it was when the object was built; a clause that fails on a later
     call of a history while the same query with fresh argument objects passes it is reported as C09.history.<fn>.<clause>.
+    stage = None, or the position of the call in an EDIT HISTORY of the mesh object: {"pos": value of the query feature "call",
+    "control": function returning (MeshCase built afresh from the containers of the edited mesh, its table of the same weights)}:
+    a clause that fails on the edited mesh while the same query on the mesh built afresh passes it is reported as
+    C09.edited.<fn>.<clause>; otherwise it counts as the ordinary failure (reported by the control run).
     Returns the list of (clause, kind) that failed."""
     rep, col = ctx.rep, ctx.col
     if ctx.hangs >= MAX_HANGS_PER_TASK:
         raise Aborted()
     wobj, D, W, exact, wl, base = table
     m = len(mc.E)
-    pos = "fresh" if hist is None else ("later" if hist["log"] else "first")
+    pos = stage["pos"] if stage is not None else "fresh" if hist is None else ("later" if hist["log"] else "first")
     if "wsnap" not in base:
         base["wsnap"] = _wsnap(wobj, m)
     tobj = tsnap = None
     if callee == "shortest_path_to_border":
         members = sorted(mc.border)
         feats = (mode if wl is None else "custom", WTYPE[mode], "multi", "border", "yes" if start in mc.border else "no",
-                 "yes" if export else "no", mc.kind, reach, pos)
+                 "yes" if export else "no", mc.kind, reach, pos, mc.size)
         shown = None
         out = ctx.gcall(ctx.spb, mc.mesh, start, wobj, export)
     else:
@@ -721,7 +894,7 @@ def _query(ctx, mc, callee, start, form, T, mode, table, export, reach, hist=Non
         tobj = _form_obj(form, T) if hist is None else hist["tobj"]
         tsnap = _snap(tobj)
         feats = (mode if wl is None else "custom", WTYPE[mode], "single" if len(T) == 1 else "multi",
-                 "list" if form == "rlist" else form, "yes" if start in T else "no", "yes" if export else "no", mc.kind, reach, pos)
+                 "list" if form == "rlist" else form, "yes" if start in T else "no", "yes" if export else "no", mc.kind, reach, pos, mc.size)
         shown = repr(tobj) if hist is None else "T"
         fn = ctx.sp if callee == "shortest_path" else ctx.spv
         out = ctx.gcall(fn, mc.mesh, start, tobj, wobj, export)
@@ -782,6 +955,15 @@ def _query(ctx, mc, callee, start, form, T, mode, table, export, reach, hist=Non
                 rep.count("history_failures_identical_to_failure_of_fresh_call")
             else:
                 col.fail("C09.history." + SHORT[callee] + "." + clause, callee, kind, feats, size_key, detail(info))
+    elif stage is not None and found:
+        fmc, ftable = stage["control"](mode, wl)
+        rep.count("edit_controls_run")
+        same = set(_query(ctx, fmc, callee, start, form, T, mode, ftable, export, reach))
+        for clause, kind, info in found:
+            if (clause, kind) in same:
+                rep.count("edit_failures_identical_to_failure_on_mesh_built_afresh")
+            else:
+                col.fail("C09.edited." + SHORT[callee] + "." + clause, callee, kind, feats, size_key, detail(info))
     else:
         for clause, kind, info in found:
             col.fail(pre + clause, callee, kind, feats, size_key, detail(info))
@@ -1053,6 +1235,253 @@ def sweep_history(ctx, mc, plan, customs):
                             ctx.seen.add("history:several_targets")
                         if len(C) > 2:
                             ctx.seen.add("history:three_or_more_starts")
+
+
+# ------------------------------------------------------------------------------------------------ long specimens
+def _long_queries(spec, kind, many):
+    """(entry point, start, targets form, targets, export) asked on a long specimen: between its two ends a, b (both ways), from
+    the middle, with a vertex `near` the end a; vertex sets whose nearest member is the far end / near / the start itself."""
+    a, b, mid, near, far = spec["a"], spec["b"], spec["mid"], spec["near"], tuple(spec["far_set"])
+    sp, spv, spb = "shortest_path", "shortest_path_to_vertex_set", "shortest_path_to_border"
+    q = [(sp, a, "int", (b,), False), (sp, a, "int", (b,), True), (sp, b, "list", (a,), False), (sp, a, "npscalar", (b,), False),
+         (sp, mid, "list", (a, b), False), (sp, a, "set", tuple(sorted({b, mid, near})), True), (sp, b, "nparr", tuple(sorted({a, near})), False),
+         (sp, a, "tuple", tuple(many), False),
+         (spv, a, "list", (b,), False), (spv, a, "list", far, False), (spv, a, "set", far, True), (spv, a, "tuple", far, False),
+         (spv, a, "nparr", far, False), (spv, b, "list", tuple(sorted({a, near})), False), (spv, a, "list", tuple(sorted({near, b})), False),
+         (spv, a, "set", tuple(sorted({a, b})), False), (spv, mid, "gen", tuple(sorted({a, b})), False)]
+    if kind == "surface":
+        q += [(spb, a, "border", None, False), (spb, a, "border", None, True), (spb, mid, "border", None, False), (spb, b, "border", None, False)]
+    return q
+
+
+def sweep_long(ctx, shape, N, long, modes, every):
+    """One specimen of LONG_SHAPES with N edges along it, every query of _long_queries in every weight mode of `modes`."""
+    rep = ctx.rep
+    spec = X.specimen(shape, N)
+    mc = LongCase(ctx, spec, N, long)
+    many = sorted(set(range(0, mc.n, every)) | {spec["b"]})
+    tables = [(m, mc.named_table(m)) for m in ("one", "length") if m in modes]
+    for mode, wl in _pattern_customs(mc, {"modes": modes}):
+        t = mc.custom_table(ctx, mode, wl)
+        if t is None:
+            rep.count("skipped_custom_weights:mesh.edges_differs_from_element_edges")
+            continue
+        tables.append((mode, t))
+    tag = "long" if long else "control"
+    rep.count(f"long_specimens:{tag}")
+    rep.count(f"long_specimens:{tag}:{mc.kind}")
+    hops = mc.named_table("one")[1] if "one" in modes else None
+    for mode, table in tables:
+        rep.states += 1
+        for callee, s, form, T, ex in _long_queries(spec, mc.kind, many):
+            if callee == "shortest_path_to_border" and not mc.border:
+                continue
+            _query(ctx, mc, callee, s, form, T, mode, table, ex, "all")
+            rep.case(("long", shape, N, mode, callee, s, form, T, ex))
+            ctx.seen.add(f"long:{tag}:{callee}")
+            ctx.seen.add(f"long:{tag}:mode:{mode}")
+            if long and hops is not None:
+                members = sorted(mc.border) if T is None else T
+                d = (max if callee == "shortest_path" else min)(hops[s][t] for t in members)     # edges of the longest path of the answer
+                if d >= LONG_MIN_EDGES:
+                    ctx.seen.add(f"long:answer_of_{LONG_MIN_EDGES}_edges_or_more:{callee}" + (":several_targets" if len(members) > 1 else ""))
+                    ctx.seen.add(f"long:answer_of_{LONG_MIN_EDGES}_edges_or_more:{shape}")
+                    import sys
+                    if d > sys.getrecursionlimit():
+                        ctx.seen.add("long:answer_deeper_than_the_recursion_limit")
+
+
+# ------------------------------------------------------------------------------------------------ edit histories
+
+
+def _edit_menu(ctx, kind, n, pts, elems):
+    """Every edit of the menu that applies to the family member (n, pts, elems): list of
+    (edit kind, description, element list the history starts from, apply(mesh), needs the documented resets, expected elements or None).
+      append_element   the mesh is built without one of its elements (every element in turn; surfaces: only if what remains is an
+                       oriented manifold), which is then appended through the containers
+      replace_element  polyline: edges[i] = every pair that is no edge yet; surface: every flip of an edge between two triangles
+                       that leaves an oriented manifold (two faces and one edge re-assigned, corners rewritten)
+      move_vertices    every vertex re-assigned (an affine map that is no similarity)
+      subdivide        the library's own editors: split_edge(e) for every edge, SurfaceSubdivision.split_face_as_fan(f) for every
+                       face (+ triangulate() if some face is no triangle), VolumeSubdivision.split_cell_as_fan(c) for every cell"""
+    M = ctx.M
+    rep = ctx.rep
+    elems = [tuple(e) for e in elems]
+    out = []
+    if len(elems) >= 2:
+        fn = {"polyline": X.append_edge, "surface": X.append_face, "volume": X.append_cell}[kind]
+        for i, e in enumerate(elems):
+            base = elems[:i] + elems[i + 1:]
+            if kind == "surface" and not F.is_oriented_manifold(base, n, require_all_used=False):
+                rep.count("edit:filtered:remaining_faces_not_manifold")
+                continue
+            out.append(("append_element", {"appended_through_the_containers": list(e)}, base, (lambda mesh, e=e: fn(mesh, e)), True, base + [e]))
+    if kind == "polyline":
+        E = _oracle_edges(kind, elems)
+        for i, e in enumerate(elems):
+            for u, v in itertools.combinations(range(n), 2):
+                if (u, v) in E:
+                    continue
+                def app(mesh, e=e, u=u, v=v):
+                    j = next(k for k, x in enumerate(mesh.edges) if set(x) == set(e))
+                    X.replace_edge(mesh, j, (u, v))
+                out.append(("replace_element", {"edge": list(e), "reassigned_to": [u, v]}, elems, app, True, elems[:i] + [(u, v)] + elems[i + 1:]))
+    elif kind == "surface":
+        for fl in X.flips(n, elems):
+            i1, i2, ab, new1, new2, cd = fl
+            want = list(elems)
+            want[i1], want[i2] = new1, new2
+            out.append(("replace_element", {"flipped_edge": list(ab), "faces": [i1, i2], "become": [list(new1), list(new2)], "new_edge": list(cd)},
+                        elems, (lambda mesh, fl=fl: X.flip_edge(mesh, fl)), True, want))
+    out.append(("move_vertices", {"every_vertex_reassigned_to": "(2x+y+1, 3y-z, z+x/2+2)"}, elems, (lambda mesh: X.move_vertices(mesh, pts)), True, elems))
+    if kind == "polyline":
+        for i in range(len(elems)):
+            out.append(("subdivide", {"call": f"mouette.mesh.split_edge(mesh, {i})"}, elems, (lambda mesh, i=i: M.mesh.split_edge(mesh, i)), False, None))
+    elif kind == "surface":
+        def fan(mesh, i):
+            with M.mesh.SurfaceSubdivision(mesh) as sub:
+                sub.split_face_as_fan(i)
+        def tri(mesh):
+            with M.mesh.SurfaceSubdivision(mesh) as sub:
+                sub.triangulate()
+        for i in range(len(elems)):
+            out.append(("subdivide", {"call": f"with SurfaceSubdivision(mesh) as sub: sub.split_face_as_fan({i})"}, elems, (lambda mesh, i=i: fan(mesh, i)), False, None))
+        if any(len(f) > 3 for f in elems):
+            out.append(("subdivide", {"call": "with SurfaceSubdivision(mesh) as sub: sub.triangulate()"}, elems, tri, False, None))
+    else:
+        def cfan(mesh, i):
+            with M.mesh.VolumeSubdivision(mesh) as sub:
+                sub.split_cell_as_fan(i)
+        for i in range(len(elems)):
+            out.append(("subdivide", {"call": f"with VolumeSubdivision(mesh) as sub: sub.split_cell_as_fan({i})"}, elems, (lambda mesh, i=i: cfan(mesh, i)), False, None))
+    return out
+
+
+def _edit_table(ctx, mc, mode):
+    if mode in ("one", "length"):
+        return mc.named_table(mode)
+    m = len(mc.E)
+    return mc.custom_table(ctx, mode, [PATTERNS[mode][e % len(PATTERNS[mode])] for e in range(m)])
+
+
+def _edit_history(ctx, kind, n, pts, tag, item, prime, mode):
+    """One EDIT HISTORY on one mesh object: the queries of `prime` in weight mode `mode`, the edit, the documented resets
+    (connectivity.clear(), clear_boundary_data()) where the edit was made through the containers, then every query of the plan
+    in the same mode, judged against the containers of the mesh as they are now."""
+    rep = ctx.rep
+    ekind, what, base, apply, needs_reset, want = item
+    mc0 = MeshCase(ctx, kind, pts, base, tag)
+    calls = []
+    t0 = _edit_table(ctx, mc0, mode)
+    if t0 is None:
+        rep.count("skipped_custom_weights:mesh.edges_differs_from_element_edges")
+        return
+    if prime != "none":
+        for s in range(mc0.n):
+            R = mc0.comp[s]
+            Ds = t0[1][s]
+            if prime in ("p2p", "all"):
+                _query(ctx, mc0, "shortest_path", s, "list", tuple(R), mode, t0, False, "all")
+                calls.append(f"shortest_path(mesh, {s}, {list(R)}, W)")
+            if prime in ("set", "all"):
+                _query(ctx, mc0, "shortest_path_to_vertex_set", s, "list", (R[-1],), mode, t0, False, "all")
+                calls.append(f"shortest_path_to_vertex_set(mesh, {s}, [{R[-1]}], W)")
+                if len(R) > 1:
+                    _query(ctx, mc0, "shortest_path_to_vertex_set", s, "list", tuple(R), mode, t0, False, "all")
+                    calls.append(f"shortest_path_to_vertex_set(mesh, {s}, {list(R)}, W)")
+            if prime in ("border", "all") and any(Ds[t] != math.inf for t in mc0.border):
+                _query(ctx, mc0, "shortest_path_to_border", s, "border", None, mode, t0, False,
+                       "all" if all(Ds[t] != math.inf for t in mc0.border) else "partial")
+                calls.append(f"shortest_path_to_border(mesh, {s}, W)")
+    mesh = mc0.mesh
+    out = ctx.gcall(apply, mesh)
+    if out.ok and needs_reset:
+        out = ctx.gcall(X.reset, mesh)
+    if not out.ok:
+        # the edit itself failed: construction / subdivision are the subject of other properties (C02, C13)
+        rep.count("edit:premise_failed:edit_raised:" + ekind)
+        return
+    pts2, elems2 = X.read_back(mesh, kind)
+    if want is not None and (sorted(tuple(sorted(e)) for e in elems2) != sorted(tuple(sorted(e)) for e in want) or len(pts2) != n):
+        rep.count("edit:premise_failed:containers_differ_from_what_was_written:" + ekind)
+        return
+    if want is None and not (len(elems2) > len(base) and len(pts2) >= n):
+        rep.count("edit:subdivision_changed_nothing")
+        return
+    story = {"built_from_elements": [list(e) for e in base], "built_from_points": [list(p) for p in pts],
+             "queries_before_the_edit (W = weights of the mode under test)": calls if len(calls) <= 12 else calls[:12] + [f"... {len(calls)} calls"],
+             "edit": dict(what, kind=ekind),
+             "then": "mesh.connectivity.clear(); mesh.clear_boundary_data() (surfaces)" if needs_reset else "(the editing entry point resets the mesh itself)"}
+    mc = MeshCase(ctx, kind, pts2, elems2, tag + ":edited", mesh=mesh, story=story)
+    table = _edit_table(ctx, mc, mode)
+    if table is None:
+        rep.count("edit:premise_failed:mesh.edges_differs_from_element_edges:" + ekind)
+        return
+    fresh = {}
+
+    def control(mode_, wl):
+        if "mc" not in fresh:
+            fresh["mc"] = MeshCase(ctx, kind, pts2, elems2, tag + ":built afresh from the containers of the edited mesh")
+        fmc = fresh["mc"]
+        if wl is None:
+            return fmc, fmc.named_table(mode_)
+        pair = {mc.edge_of_id[e]: w for e, w in enumerate(wl)}
+        return fmc, fmc.custom_table(ctx, mode_, [pair[k] for k in fmc.edge_of_id])
+
+    stage = {"pos": f"after:{ekind}:" + ("not_queried_before" if prime == "none" else "queried_before"), "control": control}
+    rep.count("edit_histories")
+    rep.count(f"edit_histories:{kind}:{ekind}")
+    rep.states += 1
+    rep.case(("edit", kind, tuple(mc0.pts), tuple(base), repr(sorted(what.items())), prime, mode))
+    ctx.seen.add("edit:prime:" + prime)
+    ctx.seen.add("edit:mode:" + mode)
+    ctx.seen.add(f"edit:{ekind}:prime:{'none' if prime == 'none' else 'some'}")
+    m = min(n, mc.n)
+    if any(mc0.hop[a][b] != mc.hop[a][b] for a in range(m) for b in range(m)):
+        ctx.seen.add("edit:hop_distances_changed:" + ekind)
+    if mc0.E - mc.E:
+        ctx.seen.add("edit:an_edge_disappeared:" + ekind)
+    if mc.E - mc0.E:
+        ctx.seen.add("edit:an_edge_appeared:" + ekind)
+    if mc.n > n:
+        ctx.seen.add("edit:a_vertex_appeared:" + ekind)
+    if mc.border != mc0.border:
+        ctx.seen.add("edit:border_changed:" + ekind)
+    exports = (False, True) if mode == "length" else (False,)
+    for s in range(mc.n):
+        R = mc.comp[s]
+        Ds = table[1][s]
+        for ex in exports:
+            _query(ctx, mc, "shortest_path", s, "list", tuple(R), mode, table, ex, "all", stage=stage)
+        for t in R:
+            _query(ctx, mc, "shortest_path", s, "int", (t,), mode, table, False, "all", stage=stage)
+        for k in (1, 2):
+            for T in itertools.combinations(range(mc.n), k):
+                nreach = sum(1 for t in T if Ds[t] != math.inf)
+                if nreach:
+                    _query(ctx, mc, "shortest_path_to_vertex_set", s, "list", T, mode, table, False, "all" if nreach == k else "partial", stage=stage)
+        if mc.border and any(Ds[t] != math.inf for t in mc.border):
+            for ex in exports:
+                _query(ctx, mc, "shortest_path_to_border", s, "border", None, mode, table, ex,
+                       "all" if all(Ds[t] != math.inf for t in mc.border) else "partial", stage=stage)
+
+
+def sweep_edits(ctx, kind, pts, elems, tag, plan, offset):
+    """Every edit of the menu on one family member x (prime, weight mode): the full product, or (plan["rotate"]) one pair per
+    edit, the pairs dealt in rotation over the edits of one kind (every pair occurs for every kind of edit over the family)."""
+    n = len(pts)
+    primes = [p for p in plan["primes"] if p != "border" or kind == "surface"]
+    combos = [(p, m) for p in primes for m in plan["modes"]]
+    ctx.rep.count("edit_meshes:" + kind)
+    for item in _edit_menu(ctx, kind, n, pts, elems):
+        if plan["rotate"]:
+            c = ctx.edit_counter.get(item[0], offset)
+            ctx.edit_counter[item[0]] = c + 1
+            todo = [combos[(c * plan.get("stride", 1)) % len(combos)]]
+        else:
+            todo = combos
+        for prime, mode in todo:
+            _edit_history(ctx, kind, n, pts, tag, item, prime, mode)
 
 
 def _pattern_customs(mc, plan):
@@ -1389,6 +1818,18 @@ def _run_hist(task, ctx):
         sweep_history(ctx, mc, task["plan"], _pattern_customs(mc, task["plan"]))
 
 
+def _run_edits(task, ctx):
+    """The meshes of the slice, each put through sweep_edits."""
+    for j, (kind, pts, elems, tag) in enumerate(_slice_meshes(task, ctx)):
+        sweep_edits(ctx, kind, pts, elems, tag, task["plan"], task.get("lo", 0) + 3 * j)
+
+
+def _run_long(task, ctx):
+    ctx.cpu_limit = LONG_CPU_LIMIT
+    sweep_long(ctx, task["shape"], LONG_CONTROL_N, False, ALL5, 7)
+    sweep_long(ctx, task["shape"], task["N"], True, task["modes"], task["every"])
+
+
 def _run_callforms(task, ctx):
     """The meshes of the slice, each put through sweep_callforms; the first task also compares the signatures."""
     if task.get("signature"):
@@ -1480,15 +1921,15 @@ def _run_selftest(task, ctx):
                                            f"brute force {best}, Floyd-Warshall {D[s][t]}")
                     ctx.rep.count("oracle_selftest_pairs")
     # the failure-class explanation: a feature implied by the others is dropped, defaults are never reported
-    ex = {("one", "str", "single", "int", "no", "no", "polyline", "all", "fresh"), ("one", "str", "multi", "list", "yes", "no", "polyline", "all", "fresh"),
-          ("length", "str", "single", "int", "no", "no", "polyline", "all", "fresh"), ("custom", "dict", "multi", "list", "yes", "no", "polyline", "all", "fresh")}
+    ex = {("one", "str", "single", "int", "no", "no", "polyline", "all", "fresh", "small"), ("one", "str", "multi", "list", "yes", "no", "polyline", "all", "fresh", "small"),
+          ("length", "str", "single", "int", "no", "no", "polyline", "all", "fresh", "small"), ("custom", "dict", "multi", "list", "yes", "no", "polyline", "all", "fresh", "small")}
     got = _explain({t for t in ex if t[0] == "one"}, ex)
     if got != "weights=one":
         raise RuntimeError("class explanation self-test failed: " + got)
 
 
 RUNNERS = {"selftest": _run_selftest, "graph": _run_graphs, "surf": _run_surfs, "tet": _run_tets, "grid": _run_grid, "holey": _run_holey,
-           "wgraph": _run_wgraphs, "hist": _run_hist, "callforms": _run_callforms}
+           "wgraph": _run_wgraphs, "hist": _run_hist, "callforms": _run_callforms, "edit": _run_edits, "long": _run_long}
 
 
 def run_task(task, rep: Report):
@@ -1594,6 +2035,41 @@ def finish(tier, rep: Report):
     for clause in ("keyword", "positional", "omitted"):
         if "passes" not in rep.outcomes.get("callform:" + clause, ()):
             fails.append(f"call forms: clause {clause} never passed")
+    # ---- long specimens: every shape run in its long and its short member, every entry point really answered with a path of
+    # >= LONG_MIN_EDGES edges (deeper than the interpreter's recursion limit), in single- and several-target form
+    nlong = len(X.LONG_SHAPES) * (1 if quick else 2)
+    for tag in ("long", "control"):
+        if c.get("long_specimens:" + tag, 0) != nlong:
+            fails.append(f"long specimens ({tag}): {c.get('long_specimens:' + tag, 0)} run, expected {nlong}")
+    pre = f"long:answer_of_{LONG_MIN_EDGES}_edges_or_more:"
+    want_f = ([pre + x for x in X.LONG_SHAPES] + ["long:answer_deeper_than_the_recursion_limit"]
+              + [pre + x for x in ("shortest_path", "shortest_path:several_targets", "shortest_path_to_vertex_set",
+                                   "shortest_path_to_vertex_set:several_targets", "shortest_path_to_border:several_targets")]
+              + ["long:long:mode:" + x for x in STD4] + ["long:control:mode:" + x for x in ALL5]
+              + [f"long:{tag}:{fn}" for tag in ("long", "control") for fn in DOC_SIGNATURES])
+    # ---- edit histories: every kind of edit on every kind of mesh it applies to, after queries and without, in every mode; the
+    # edits really changed what the answers depend on; nothing was dropped because an edit left the containers in another state
+    want_e = ({"edit_meshes:polyline": 75, "edit_meshes:surface": 66 + 3 + 8, "edit_meshes:volume": 3, "edit_histories": 1534} if quick else
+              {"edit_meshes:polyline": 150, "edit_meshes:surface": 66 + 410 + 36 + 92, "edit_meshes:volume": 27, "edit_histories": 47801})
+    for k, v in want_e.items():
+        if c.get(k, 0) != v:
+            fails.append(f"{k}: {c.get(k, 0)}, expected {v}")
+    for mk in ("polyline", "surface", "volume"):
+        for ek in EDIT_KINDS:
+            if (mk, ek) != ("volume", "replace_element") and not c.get(f"edit_histories:{mk}:{ek}", 0):
+                fails.append(f"no edit history of kind {ek} on a {mk}")
+    for k in sorted(c):
+        if k.startswith("edit:premise_failed") or k == "edit:subdivision_changed_nothing":
+            fails.append(f"edit histories dropped: {k} = {c[k]}")
+    want_f += (["edit:prime:" + x for x in EDIT_PRIMES] + ["edit:mode:" + x for x in STD4]
+               + [f"edit:{ek}:prime:{x}" for ek in EDIT_KINDS for x in ("none", "some")]
+               + ["edit:hop_distances_changed:" + x for x in ("append_element", "replace_element", "subdivide")]
+               + ["edit:an_edge_appeared:" + x for x in ("append_element", "replace_element", "subdivide")]
+               + ["edit:an_edge_disappeared:" + x for x in ("replace_element", "subdivide")]
+               + ["edit:a_vertex_appeared:subdivide", "edit:border_changed:append_element"])
+    for f in want_f:
+        if f not in rep.flags:
+            fails.append("coverage flag missing: " + f)
     return fails
 
 
